@@ -8,7 +8,7 @@ fn any_pow2_size() -> u32 {
     1u32 << k
 }
 
-fn window_step(has_entry: bool) {
+fn window_step(has_entry: bool) -> (bool, usize) {
     let base: u32 = kani::any();
     let size = any_pow2_size();
     let mut q = FrameAckQueue::new(size, base);
@@ -53,11 +53,8 @@ fn window_step(has_entry: bool) {
         }
     }
     kani::cover!(accepted && id < base, "accepted across the 2^32 wrap");
-    if has_entry {
-        kani::cover!(accepted && n == 1, "merged into an existing group");
-        kani::cover!(accepted && n == 2, "opened a new group");
-    }
     std::mem::forget(q);
+    (accepted, n)
 }
 
 //@h props=C01,C03,C15 tier=quick timeout=600 role=frame-window-step
@@ -65,14 +62,18 @@ fn window_step(has_entry: bool) {
 //@bound one step from ANY window state (base any u32, size any 2^k <= 8192), empty ack-group queue; frame id and nonce any
 #[kani::proof]
 #[kani::unwind(3)]
-fn o1_2_frame_window_step_empty_queue() { window_step(false); }
+fn o1_2_frame_window_step_empty_queue() { let (a, n) = window_step(false); kani::cover!(a && n == 1, "first group opened"); }
 
 //@h props=C01,C03,C15 tier=quick timeout=600 role=frame-window-step
 //@fn ReceiveWindow::{contains, advance}, FrameAckQueue::{mark_seen, window_contains, base_id}
 //@bound one step from ANY window state (base any u32, size any 2^k <= 8192) with one queued ack group (fields any, base bit set); frame id and nonce any
 #[kani::proof]
 #[kani::unwind(3)]
-fn o1_2_frame_window_step_one_group() { window_step(true); }
+fn o1_2_frame_window_step_one_group() {
+    let (a, n) = window_step(true);
+    kani::cover!(a && n == 1, "merged into an existing group");
+    kani::cover!(a && n == 2, "opened a new group");
+}
 
 //@h props=C11,C03,C01 tier=quick timeout=300 role=frame-window-resync
 //@fn FrameAckQueue::resynchronize, ReceiveWindow::advance
